@@ -1635,9 +1635,23 @@ pub struct ScriptRead<'a> {
     pub log: Vec<usize>,
 }
 
+/// the injected error object: kinds 0..=5 carry a short ASCII message; 6..=13 vary what the error *carries* (kind Other):
+/// an empty message, a raw OS error (ENOSPC), no payload at all, a 70 KB message, and four messages of 4-byte
+/// characters behind 0..=3 ASCII bytes (any byte position >= 4 lies inside a character for three of the four)
+pub fn mk_err(k: u8, what: &str) -> std::io::Error {
+    match k {
+        6 => std::io::Error::new(std::io::ErrorKind::Other, ""),
+        7 => std::io::Error::from_raw_os_error(28),
+        8 => std::io::Error::from(std::io::ErrorKind::Other),
+        9 => std::io::Error::new(std::io::ErrorKind::Other, "x".repeat(70_000)),
+        10..=13 => std::io::Error::new(std::io::ErrorKind::Other, format!("{}{}", "abc".get(..(k - 10) as usize).unwrap_or(""), "\u{1D11E}".repeat(300))),
+        _ => std::io::Error::new(errkind(k), what.to_string()),
+    }
+}
+
 pub fn errkind(k: u8) -> std::io::ErrorKind {
     match k {
-        0 => std::io::ErrorKind::Other,
+        0 | 6..=13 => std::io::ErrorKind::Other,
         1 => std::io::ErrorKind::UnexpectedEof,
         2 => std::io::ErrorKind::Interrupted,
         3 => std::io::ErrorKind::WriteZero,
@@ -1654,7 +1668,7 @@ impl<'a> Read for ScriptRead<'a> {
             if self.pos >= off {
                 self.fail_at_offset = None;
                 self.injected = Some(k);
-                return Err(std::io::Error::new(errkind(k), "injected read error"));
+                return Err(mk_err(k, "injected read error"));
             }
         }
         let mut limit = self.max_per_call;
@@ -1662,7 +1676,7 @@ impl<'a> Read for ScriptRead<'a> {
             match *d {
                 Dev::Fail(n, k) if n == call => {
                     self.injected = Some(k);
-                    return Err(std::io::Error::new(errkind(k), "injected read error"));
+                    return Err(mk_err(k, "injected read error"));
                 }
                 Dev::Short(n, k) if n == call => limit = limit.min(k),
                 _ => {}
@@ -1699,7 +1713,7 @@ impl Write for ScriptWrite {
                 }
                 self.fail_at_offset = None;
                 self.injected = Some(k);
-                return Err(std::io::Error::new(errkind(k), "injected write error"));
+                return Err(mk_err(k, "injected write error"));
             }
         }
         let mut limit = self.max_per_call;
@@ -1707,7 +1721,7 @@ impl Write for ScriptWrite {
             match *d {
                 Dev::Fail(n, k) if n == call => {
                     self.injected = Some(k);
-                    return Err(std::io::Error::new(errkind(k), "injected write error"));
+                    return Err(mk_err(k, "injected write error"));
                 }
                 Dev::Short(n, k) if n == call => limit = limit.min(k),
                 _ => {}
@@ -1841,6 +1855,25 @@ pub fn run_c13(ctx: &Ctx, st: &mut Local) {
             for k in [0u8, 2, 3, 4] {
                 singles.push((false, Dev::Fail(c, k)));
             }
+        }
+        // what the error object carries (first three read and write calls; pairs below do not multiply these)
+        let mut payload_singles: Vec<(bool, Dev)> = Vec::new();
+        for k in 6u8..=13 {
+            for &c in rcalls.iter().take(3) {
+                payload_singles.push((true, Dev::Fail(c, k)));
+            }
+            for &c in wcalls.iter().take(3) {
+                payload_singles.push((false, Dev::Fail(c, k)));
+            }
+        }
+        for (isr, dv) in &payload_singles {
+            let mut sc = IoScript::default();
+            if *isr {
+                sc.rdevs.push(*dv)
+            } else {
+                sc.wdevs.push(*dv)
+            }
+            scripts.push(sc);
         }
         for (isr, dv) in &singles {
             let mut sc = IoScript::default();
